@@ -604,8 +604,10 @@ func (e *Engine) subSlice(st *State, s, lo, hi *Term) *Term {
 	j := Var("j!s", IntSort)
 	st.Assume(Forall([]*Term{j}, Eq(Select(na, j), Select(Acc(s, "arr"), Add(j, lo))), []*Term{Select(na, j)}))
 	// the same fact triggered from the source array (lets the solver find shifted witnesses)
-	j2 := Var("j!t", IntSort)
-	st.Assume(Forall([]*Term{j2}, Eq(Select(na, Sub(j2, lo)), Select(Acc(s, "arr"), j2)), []*Term{Select(Acc(s, "arr"), j2)}))
+	if pat := Select(Acc(s, "arr"), Var("j!t", IntSort)); pat.Op == "select" && !strings.Contains(pat.String(), "as const") {
+		j2 := Var("j!t", IntSort)
+		st.Assume(Forall([]*Term{j2}, Eq(Select(na, Sub(j2, lo)), Select(Acc(s, "arr"), j2)), []*Term{pat}))
+	}
 	return Ctor(s.S, na, Sub(hi, lo))
 }
 
@@ -617,6 +619,21 @@ func (fr *Frame) strLen(s *Term) *Term {
 func (fr *Frame) evalComposite(st *State, x *ast.CompositeLit) *Term {
 	e := fr.e
 	t := fr.info.TypeOf(x)
+	if pt, ok := t.Underlying().(*types.Pointer); ok {
+		// elided &T{...} inside a composite literal of pointers
+		fake := *x
+		v := fr.evalCompositeAs(st, &fake, pt.Elem())
+		ref := e.alloc(st, pt.Elem(), "lit")
+		if isStructVal(pt.Elem()) {
+			e.storeObj(st, ref, pt.Elem(), v)
+		}
+		return ref
+	}
+	return fr.evalCompositeAs(st, x, t)
+}
+
+func (fr *Frame) evalCompositeAs(st *State, x *ast.CompositeLit, t types.Type) *Term {
+	e := fr.e
 	switch u := t.Underlying().(type) {
 	case *types.Struct:
 		s := e.sortOf(t)
@@ -708,17 +725,18 @@ func (fr *Frame) evalTypeAssert(st *State, x *ast.TypeAssertExpr, commaOk bool) 
 	} else if n := namedOf(tt); n != nil && e.sortOf(tt) == IntSort {
 		ok = And(Neq(v, IntLit(0)), Eq(e.typeOf(v), IntLit(e.tagOf(typeName(n)))))
 	} else {
-		// assertion to a value type: unbox
-		okv := Fresh("isT", BoolSort)
-		ok = And(Neq(v, IntLit(0)), okv)
+		// assertion to a value type: unbox (deterministic uninterpreted test and projection)
+		ok = fr.dynIs(v, tt)
 		s := e.sortOf(tt)
-		un := Fresh("unbox", s)
+		un := "unbox$" + smtIdent(s.Name)
+		DeclFunc(un, s, IntSort)
+		val := App(un, v)
 		if commaOk {
-			return []*Term{Ite(ok, un, e.zeroValue(tt)), ok}
+			return []*Term{Ite(ok, val, e.zeroValue(tt)), ok}
 		}
 		e.oblige(fr, st, "assert", "", fr.site("assert", x), ok, x, nil, "type assertion")
 		st.Assume(ok)
-		return []*Term{un}
+		return []*Term{val}
 	}
 	if commaOk {
 		return []*Term{Ite(ok, v, IntLit(0)), ok}
@@ -773,4 +791,17 @@ func elemOfChan(t types.Type) types.Type {
 		return c.Elem()
 	}
 	return types.Typ[types.Int]
+}
+
+// dynIs: does interface value v hold dynamic type t?
+func (fr *Frame) dynIs(v *Term, t types.Type) *Term {
+	e := fr.e
+	if n := namedOf(t); n != nil && e.sortOf(t) == IntSort {
+		if _, isIface := t.Underlying().(*types.Interface); !isIface {
+			return And(Neq(v, IntLit(0)), Eq(e.typeOf(v), IntLit(e.tagOf(typeName(n)))))
+		}
+	}
+	name := "istype$" + smtIdent(t.String())
+	DeclFunc(name, BoolSort, IntSort)
+	return And(Neq(v, IntLit(0)), App(name, v))
 }
